@@ -40,7 +40,10 @@ class MacroGraph:
         self.out = {}             # key -> list of Macro
         self.init = []
         self.internal_steps = 0
-        qn = [n for n, s in graph.nodes.items() if quiescent(s)]
+        marker = 'pc = [op |-> "idle"]'
+        qset = {n for n, t in graph.nodes.raw.items() if marker in t}
+        qn = [n for n in qset if quiescent(graph.nodes[n])]
+        self.qset = qset
         for n in qn:
             s = graph.nodes[n]
             k = tlaparse.freeze({a: b for a, b in s.items() if a not in forget})
@@ -80,7 +83,7 @@ class MacroGraph:
             if n in seen:
                 continue
             seen.add(n)
-            if quiescent(self.g.nodes[n]):
+            if n in self.qset:
                 ends.append(n)
                 continue
             if d > maxchain:
